@@ -32,6 +32,10 @@ def _regen_dict_cnt():
     from ..translate import hashmapcnt
     return hashmapcnt.regenerate()
 
+def _regen_boc_cnt():
+    from ..translate import boccnt
+    return boccnt.regenerate()
+
 
 def _regen_tl_parser():
     from ..translate import tlengine
@@ -95,8 +99,15 @@ SPEC = dict(
              'Lean proves for all inputs that this copy computes exactly the regenerated functions (so the transformation is not trusted for values), that for EVERY cell tree, int key length k and fuel >= 2k+2 the '
              'fuel-exhaustion line is never reached (recursion depth <= k+1 levels: of the code as written, not of the cost model), and that on the tree unfolded from any well-formed cost-model graph its call count IS dictCalls of the cost model, with the same '
              'returned / raised outcome - so c19_dict_output (4(entries+stops)-2 calls) and c19_dict_depth_le_keylen (<= 2^(n+2)-2 calls) are statements about parse.py. The tick placement is validated on every change: calls counted by Lean = calls CPython makes '
-             '(counting wrappers) on 271 cells. The unary-loop iterations (dictParse steps) and the BoC / TL / order counters remain cost model + measurement. '
-             'TL PARSER ON THE SOURCE: TlSchemas.deserialize is regenerated from tl/generator.py on every run (Generated/TlEngine.lean, shared with C14) and proved equal to the C14 hand model for all inputs; c19_src_tl_total (Properties/C14.lean, which can import that model) proves that for every table with distinct field names and no cycle of bare references and EVERY byte string the regenerated code run with recursion depth (len/4+1)(R+2) and len+2 iterations of its while loop returns what it returns with any larger budgets - no loop or recursion of the code as written runs beyond a bound in the input length (each while iteration consumes >= 1 content byte or breaks; the vector loop is bounded by the guard); the step COUNT stays the cost model\'s (c19_tl_total).',
+             '(counting wrappers) on 271 cells. '
+             'SOURCE TIE of the BoC parser\'s loop counters (c19_src_boc_erase, c19_src_boc_counters, c19_src_boc_parse): the text regenerated from deserialize.py for deserialize_cell / deserialize is put, by a visible '
+             'textual transformation (harness/translate/boccnt.py), into an iteration-counting writer - every Py.loop? becomes a Py.loopW? k that ticks counter k once per iteration started, ticks kept when the run raises '
+             '(Generated/BocCnt.lean). Lean proves for EVERY byte string and constructor callback: the copy computes exactly the regenerated Boc.deserialize; its counters never exceed bocCost\'s loop1 / refs1 / loop2 / refs2 / loop3 '
+             'and are EQUAL to them when the parse returns (they can be smaller when the parse raises for a reason the cost model does not follow); nothing else ticks but the completion-tag search (<= 7 per cell); hence the three '
+             'loops of the code as written start <= len+1 iterations and all five <= 3*len+5. The tick placement is validated against CPython (first-body-line events of the six for statements = the ticks Lean counts) on 262 bags per change. '
+             'Proving the bridge found the cost model stale: bocGuarded still had the header pre-check 1+5*size_bytes of before fix 36d5bc1 (the library has 1+3*size_bytes), so bocCost was 0 on accepted bags of 6+3s..6+5s-1 bytes; corrected. '
+             'The header comprehensions and the CRC loop (bocCost.hdr / crc), the unary-loop iterations (dictParse steps) and the TL / order / constructor counters remain cost model + measurement. '
+             'TL PARSER ON THE SOURCE: TlSchemas.deserialize is regenerated from tl/generator.py on every run (Generated/TlEngine.lean, shared with C14) and proved equal to the C14 hand model for all inputs; c19_src_tl_total (Properties/C19Tl.lean) proves that for every table with distinct field names and no cycle of bare references and EVERY byte string the regenerated code run with recursion depth (len/4+1)(R+2) and len+2 iterations of its while loop returns what it returns with any larger budgets - no loop or recursion of the code as written runs beyond a bound in the input length (each while iteration consumes >= 1 content byte or breaks; the vector loop is bounded by the guard); the step COUNT stays the cost model\'s (c19_tl_total).',
         level_note='Trusted: Lean kernel (propext, Classical.choice, Quot.sound); Model/Cost.lean as a hand transcription of the loops of '
                    'cell.py (order, to_boc, __init__/calculate_hashes), deserialize.py, hashmap/parse.py, tl/generator.py (upper-bound '
                    'convention: validity failures that only cut work short are not modelled); harness/translate/tl_cost.py + TlEnv (the bundled '
@@ -111,8 +122,10 @@ SPEC = dict(
                  ('deserialize.py deserialize_boc_header, deserialize_cell, deserialize->Generated/BocHeader.lean, BocCells.lean', _regen_boc_parser),
                  (_emit_tie_name(), _regen_boc_emitter),
                  ('hashmap/parse.py parse + deserialize_hashmap_node->Generated/HashmapCnt.lean (calls counted)', _regen_dict_cnt),
-                 ('tl/generator.py TlSchemas.deserialize->Generated/TlEngine.lean (c19_src_tl_total, stated in Properties/C14.lean)', _regen_tl_parser)],
-    lean_targets=['TonVerif.Proofs.SrcBocDeser', 'TonVerif.Proofs.SrcOrderAny', 'TonVerif.Proofs.SrcBocAny', 'TonVerif.Proofs.SrcTlParser'],
+                 ('deserialize.py deserialize_cell, deserialize->Generated/BocCnt.lean (loop iterations counted)', _regen_boc_cnt),
+                 ('tl/generator.py TlSchemas.deserialize->Generated/TlEngine.lean (c19_src_tl_total, Properties/C19Tl.lean)', _regen_tl_parser)],
+    property_modules=['C19Tl'],
+    lean_targets=['TonVerif.Proofs.SrcBocDeser', 'TonVerif.Proofs.SrcOrderAny', 'TonVerif.Proofs.SrcBocAny', 'TonVerif.Proofs.SrcBocCnt', 'TonVerif.Proofs.SrcTlParser'],
     design_ref='DESIGN.md §6 C19',
     rule='one case = one public call on one adversarial input with its model step count; families: double/triple-ref chains 10..1000, '
          'depth-1023 chains, diamonds, wide sharing, random DAGs (order, to_boc x flag sets, from_boc, construction); BoC byte strings '
@@ -122,6 +135,7 @@ SPEC = dict(
     trusted_base=['Model/Cost.lean mirrors the loop structure of Cell.order/to_boc, Boc.deserialize(_boc_header/_cell), hashmap.parse, '
                   'TlSchemas.deserialize by hand (cost only, upper-bound convention)',
                   'harness/workmeter.py: Python line events inside pytoniq_core are the unit of measured work',
+                  'harness/translate/boccnt.py + lean/TonVerif/PyW.lean: which loop of the counting copy of the BoC parser ticks which counter (visible in Generated/BocCnt.lean; validated against CPython line events); ',
                   'harness/translate/hashmapcnt.py + lean/TonVerif/PyCnt.lean: where the ticks of the instrumented dictionary recursion are (one per entry of parse / deserialize_hashmap_node; validated against CPython call counts); pyrec.py / hashmapsrc.py / PyHm.lean as for C10',
                   'constants A,B per operation fixed in harness/props/C19.py (calibrated once, ~4x slack)',
                   'harness/translate/pyarith.py + arith.py/arith2.py and lean/TonVerif/PyBytes.lean + PyBytes2.lean for the c19_src_* theorems (the vector-length guard of '
@@ -1134,11 +1148,65 @@ def dict_src_search(ctx):
     return len(ctx.failures) > n0
 
 
+def boc_iters_case(ctx, data, tag, ticks=None):
+    """property-level oracle on one byte string, on the REAL code: iterations started by the `for` loops of Boc.deserialize / deserialize_cell
+    (first-body-line events, harness/translate/boccnt.py) must satisfy the bounds of c19_src_boc_parse: the three outer loops <= len + 1, the five
+    loops <= 3*len + 5, the completion-tag search <= 7 per cell."""
+    from ..translate import boccnt
+    if ticks is None:
+        ticks = boccnt.py_ticks([data], budget=lambda n: 40 * n + 2000)[0]
+    t = [int(x) for x in ticks.split()[1:]]
+    if len(t) != 6:
+        return
+    inp = {'kind': 'boc-iters', 'boc': bytes(data).hex(), 'tag': tag}
+    ctx.case(('boc-iters', bytes(data).hex()), nontrivial=t[5] > 0, sample=inp)
+    n = len(data)
+    if ticks.startswith('cut') and t[5] + t[3] + t[2] <= n + 1 and sum(t) - t[1] <= 3 * n + 5:
+        ctx.fail('boc-iters:time', 'Boc.deserialize did not finish within 3 s on a short input (work outside the counted loops)', inp, ticks, 'returns or raises at once')
+    elif t[5] + t[3] + t[2] > n + 1:
+        ctx.fail('boc-iters:outer-loops-exceed-len+1', 'the three loops of Boc.deserialize started more iterations than len(data) + 1', inp, t[5] + t[3] + t[2], f'<= {n + 1}')
+    elif t[5] + t[0] + t[3] + t[4] + t[2] > 3 * n + 5:
+        ctx.fail('boc-iters:loops-exceed-3len+5', 'the loops of Boc.deserialize / deserialize_cell started more iterations than 3*len(data) + 5', inp, sum(t) - t[1], f'<= {3 * n + 5}')
+    elif t[1] > 7 * t[5]:
+        ctx.fail('boc-iters:tag-search', 'the completion-tag search ran more than 7 iterations per cell', inp, t[1], f'<= {7 * t[5]}')
+
+
+def boc_iters_inputs(rng, big):
+    """adversarial count fields over few bytes (the families the length checks must cut), plus the translator's validation bags"""
+    from ..translate import boccnt, bocheader
+    out = [('val', d) for d in boccnt.validation_inputs()]
+    for size in (1, 2, 3):
+        top = 256 ** size - 1
+        for cells, roots, body in ((top, 1, b''), (top, top, b''), (top, 0, bytes(2)), (top, 1, bytes(40)), (3, top, bytes(6)),
+                                   (top, 1, bytes([7, 0]) * 5), (top, 1, bytes([0, 0]) * (200 if big else 30))):
+            for kind in ('g', 'gi'):
+                try:
+                    rl = [0] * min(roots, 3)
+                    out.append((f'adv-{size}-{cells}-{roots}', bocheader.make_header('g', size | (0x80 if kind == 'gi' else 0), size, 2, cells, len(rl) if roots <= 3 else roots, 0, len(body), rl, None, body)))
+                except Exception:
+                    pass
+    return out
+
+
+def boc_iters_check(ctx, big=False):
+    from ..translate import boccnt
+    n0 = len(ctx.failures)
+    try:
+        inputs = boc_iters_inputs(ctx.rng, big)
+        ticks = boccnt.py_ticks([d for _, d in inputs], budget=lambda n: 40 * n + 2000)
+        for (tag, d), t in zip(inputs, ticks):
+            boc_iters_case(ctx, d, tag, t)
+    except Exception as e:
+        ctx.notes.append(f'BoC loop-iteration check failed: {type(e).__name__}: {e}')
+    return len(ctx.failures) > n0
+
+
 def run(ctx):
     rng = ctx.rng
     t0 = time.time()
-    if ctx.search and (dict_src_search(ctx) or src_search(ctx)):
+    if ctx.search and (boc_iters_check(ctx, big=True) or dict_src_search(ctx) or src_search(ctx)):
         return
+    boc_iters_check(ctx)
     # ---- DAG shapes
     lens = [10, 20, 50, 100, 300, 1000] if not ctx.thorough else [10, 20, 21, 30, 50, 100, 200, 300, 500, 700, 1000]
     for d in lens:
@@ -1242,6 +1310,8 @@ def replay(ctx, payload):
     mu = _re.match(r'unshared-(ladder|twice)(\d+)$', str(inp.get('family', '')))
     if mu:
         check_unshared(ctx, int(mu.group(2)), inp['family'], mu.group(1))
+    elif inp.get('kind') == 'boc-iters':
+        boc_iters_case(ctx, bytes.fromhex(inp['boc']), inp.get('tag', 'replay'))
     elif 'boc' in inp and isinstance(inp['boc'], str) and not inp['boc'].endswith(')') and ' bytes' not in inp['boc']:
         check_boc_bytes(ctx, bytes.fromhex(inp['boc']), inp.get('tag', 'replay'))
     elif 'dag' in inp and isinstance(inp['dag'], list):
